@@ -789,8 +789,13 @@ def oracles (st : WorldSt) (pd : Pending) (post : Bool := false) : List (String 
       let ra := curVal st s!"reg {showAsset v.a0} {showAsset v.a1}"
       let rb := curVal st s!"reg {showAsset v.a1} {showAsset v.a0}"
       if ra ≠ "" && (ra ≠ pv || rb ≠ pv) then
-        let prop := match pd.op with | .factory _ _ (.addDecimals ..) => "C17" | _ => "C16"
-        out := out ++ [(prop, s!"factory record and self-description of pair {p} differ: [{ra}] [{rb}] vs [{pv}]")]
+        -- the state predicate is a clause of C16 ("… equal what the pair contract reports about itself") whatever
+        -- operation broke it; when a decimals registration broke it, it is C17's conclusion as well
+        let note := s!"factory record and self-description of pair {p} differ: [{ra}] [{rb}] vs [{pv}]"
+        out := out ++ [("C16", note)]
+        match pd.op with
+        | .factory _ _ (.addDecimals ..) => out := out ++ [("C17", note)]
+        | _ => pure ()
     | none => pure ()
   let listing := curVal st "listing"
   if listing ≠ "" then
